@@ -1337,6 +1337,18 @@ func (w *World) monKept(h []ev) {
 // C14 / C20: a connection whose peer follows the protocol, acknowledges what it receives and is not displaced must not
 // be closed by the broker (scripts mark such connections with MustSurvive)
 func (w *World) monSurvive(h []ev) {
+	// … and a connection that arrives after the backend was shut down has to be turned away and released
+	closed := map[int]bool{}
+	for _, e := range h {
+		if e.kind == "closed" {
+			closed[e.conn] = true
+		}
+	}
+	for _, c := range w.mustRelease {
+		if !closed[c] {
+			w.hit("connection-not-released", fmt.Sprintf("connection %d arrived after the backend had been shut down and is still open at the end: nothing released it", c))
+		}
+	}
 	for _, e := range h {
 		if e.kind == "finish" {
 			return
